@@ -138,9 +138,11 @@ def _singular_huge_row(which):
     def make(rs, cfg, sh):
         target = sh.arms[-1]
         others = [a for a in sh.arms if a != target]
-        k = int(rs.integers(0, 5)) if others else 0  # ordinary rows of other arms (trained or not) in the same batch, before the bad row
+        # ordinary rows of the other arms (trained or not) in the same batch, before the bad row; half of the time every one of them
+        k = (len(others) if rs.integers(2) else int(rs.integers(0, 5))) if others else 0
         b = _batch(rs, cfg, sh, n=max(k, 1))
-        d = np.asarray([others[int(i)] for i in rs.integers(0, len(others), k)] + [target]) if k else np.asarray([target])
+        picks = list(others) if k == len(others) else [others[int(i)] for i in rs.integers(0, len(others), k)]
+        d = np.asarray(picks + [target]) if k else np.asarray([target])
         r = np.asarray([float(v) for v in b["r"][:k]] + [1.0])
         X = np.vstack([np.asarray(b["X"], dtype=float)[:k], np.full((1, sh.nf), 2.0 ** 30)]) if k else np.full((1, sh.nf), 2.0 ** 30)
         return "%s with %d ordinary row(s) and the row [2^30]*%d for the data-less arm %r" % (which, k, sh.nf, target), \
